@@ -86,8 +86,9 @@ Section MachineFacts.
 
   Lemma inv_step w o : Inv w -> Inv (mstep w o).
   Proof.
-    intros HI. destruct o as [a k|t]; [apply inv_run, HI|].
-    destruct HI as [Hg Hl]. split; assumption.
+    intros HI. destruct o as [a k|t|l]; [apply inv_run, HI| |].
+    - destruct HI as [Hg Hl]. split; assumption.
+    - apply inv_set; [exact HI|apply slot_ok_nocache].
   Qed.
 
   (* every world reachable from an empty build directory *)
@@ -155,13 +156,14 @@ Section MachineFacts.
   Qed.
 
   (* ---- an unchanged project with an identical command line is served from the cache ---- *)
-  Hypothesis accepts_refl : forall a r, precheck a = Ok tt -> accepts a r a = true.
+  Variable cacheable : Args -> bool.              (* runs that read the cache at all (not --info-export) *)
+  Hypothesis accepts_refl : forall a r, precheck a = Ok tt -> cacheable a = true -> accepts a r a = true.
   Hypothesis ts_self : forall t ts, load_ts t = Ok ts -> ts_valid ts t = true.
 
-  Theorem identical_run_hits a w w1 r :
+  Theorem identical_run_hits a w w1 r : cacheable a = true ->
     mrun a 0 w = (w1, ORegen r) -> exists k, mrun a k w1 = (w1, OHit (view a r)).
   Proof.
-    unfold Cache.mrun at 1.
+    intros Hcb. unfold Cache.mrun at 1.
     destruct (precheck a) as [u| | |] eqn:Hp; try discriminate.
     destruct (lookup a w); [discriminate|].
     destruct (load_ts (w_tree _ _ _ _ w)) as [ts| | |] eqn:Hl; try discriminate.
@@ -169,7 +171,7 @@ Section MachineFacts.
     destruct (gen (w_tree _ _ _ _ w) a) as [r0| | |] eqn:Hg; try discriminate.
     intros Heq. injection Heq as <- <-. exists 0.
     unfold Cache.mrun. rewrite Hp. unfold Cache.lookup. rewrite get_set_same. cbn [s_cache c_args c_res c_ts].
-    rewrite (accepts_refl a r0 (precheck_tt _ _ Hp)). rewrite tree_set, (ts_self _ _ Hl). reflexivity.
+    rewrite (accepts_refl a r0 (precheck_tt _ _ Hp) Hcb). rewrite tree_set, (ts_self _ _ Hl). reflexivity.
   Qed.
 
   (* the same, for a hit: a hit changes nothing, so the next identical run hits again *)
@@ -206,7 +208,7 @@ Section Refuted.
   Definition trun := run_pinned nat nat nat nat (fun _ => Ok tt) (fun t => Ok t) tgen Nat.eqb (fun c _ a => Nat.eqb c a)
                                 (fun _ r => r) (fun _ => false).
   Definition tstep (w : world nat nat nat nat) (o : op nat nat) :=
-    match o with Run a k => fst (trun a k w) | Edit t => {| w_tree := t; w_global := w_global _ _ _ _ w; w_local := w_local _ _ _ _ w |} end.
+    match o with Run a k => fst (trun a k w) | Edit t => {| w_tree := t; w_global := w_global _ _ _ _ w; w_local := w_local _ _ _ _ w |} | Corrupt _ => w end.
 
   (* a complete run, then a run with other arguments that fails after truncating the ninja file:
      the next run with the first arguments is served from the cache next to a truncated file *)
